@@ -9,6 +9,9 @@
 (*      50-66  detector_rotation_matrix    Rx(tilt_x).Ry(tilt_y).Rz(tilt_z) *)
 (*      69-118 compute_xyz_lab             Place, Flip, Tilt, Shift         *)
 (*     158-191 compute_tth_eta_from_xyz    Diff (+ atan2 in the harness)    *)
+(*     194-231 compute_sinsqth_from_xyz, sinth2_sqrt_deriv  (BraggLaw: the  *)
+(*             arctan-free sin^2(theta) = (|d| - d_x)/(2|d|))               *)
+(*     695-752 PixelLUT (per-pixel xyz, tth, eta, k, sinthsq)               *)
 (*     234-305 compute_xyz_from_tth_eta    Project                          *)
 (*     308-366 compute_grain_origins       Origin                           *)
 (*     403-478 compute_k_vectors / compute_g_from_k   RotateG               *)
@@ -75,6 +78,12 @@
 (*            and the non-zero translations are a fixed function of the     *)
 (*            lattice point (Salt, AngleOf, OmegaOf).  Then Place Flip Tilt *)
 (*            Shift Origin Diff RotateG Project.                            *)
+(*            The distance runs over four classes (DistList): 60, 70        *)
+(*            (forward), -60 (back-scattering detector) and 2 (near field:  *)
+(*            tilted detector reaching behind the sample, grain translated  *)
+(*            beyond the detector), so that lab vectors with d_x < 0, i.e.  *)
+(*            two-theta > 90 degrees, occur in a quarter to a half of the   *)
+(*            configurations of every switch set (the harness counts them). *)
 (*            Geometry_fwd_t: whole lattice (262144 terminal states);       *)
 (*            Geometry_fwd_corner: all switch sets x both omega signs at    *)
 (*            the default flip; Geometry_fwd_sim: for `tlc -simulate`.      *)
@@ -83,7 +92,8 @@
 (*            Pythagorean angles: InvFits keeps every numerator < 2^30),    *)
 (*            scale m: g = m G k.  Origin Diff RotateG Uncompute.  m = 1: g *)
 (*            diffracts at the generating omega; m = 2: |g| > 2/lambda      *)
-(*            when tth > 60 degrees.                                        *)
+(*            when tth > 60 degrees.  The quadruples include d_x < 0        *)
+(*            (two-theta > 90 degrees) and d = -e_x (two-theta = 180).       *)
 (*   SpecRaw  lambda g = (sn/sd) q/|q| given directly (blind-cone vectors   *)
 (*            along / near the axis, |g| = 2/lambda, |g| > 2/lambda).       *)
 (*            Uncompute.                                                    *)
@@ -110,7 +120,9 @@
 (* / int / text through dumbtypecheck), a shift of the diffraction origin   *)
 (* along the beam by a rational (compute_gve xpos, get_local_gv grids:      *)
 (* d = xyz - x e_x - o from the record's exact xyz, o and G), a rotation A  *)
-(* of g paired with g_to_k's pre = A, the default axis +z of g_to_k.        *)
+(* of g paired with g_to_k's pre = A, the default axis +z of g_to_k, the     *)
+(* per-pixel table transform.PixelLUT (the record's xyz at a whole pixel,   *)
+(* t = 0: tth, eta, k, sin^2(theta) of the lab vector xyz alone).           *)
 (*                                                                         *)
 (* INVARIANTS                                                              *)
 (*   TypeOK                                                                *)
@@ -127,6 +139,12 @@
 (*                (or the geometry is degenerate: a = b = c = 0, beam along *)
 (*                the rotation axis - found by TLC, not anticipated)        *)
 (*   EwaldBound   valid => |lambda g| <= 2                                  *)
+(*   BraggLaw     (SpecInv) |lambda g|^2 = m^2 4 sin^2(theta) with the       *)
+(*                half-angle form sin^2(theta) = (|d| - d_x) / (2 |d|),       *)
+(*                rational because |d| is an integer: Bragg's law in exact   *)
+(*                arithmetic on both sides of two-theta = 90 degrees, for    *)
+(*                every wedge / chi / omega of INVANG; the record carries    *)
+(*                sin^2(theta) as `ssq`                                      *)
 (*   AxisLaw      (SpecAx) R is a rotation that fixes n; rot(n,-a) is its   *)
 (*                inverse; matrix form = vector form of the docstring;      *)
 (*                rot(+-z, a) = Rz(+-a); with axis -z and pre = I the       *)
@@ -203,7 +221,11 @@ PDEN     == 3
 PeakList == << <<21,33>>, <<57,9>>, <<7,76>>, <<89,92>> >>
 ZC == 7
 YC == 11
-DistList == << 60, 70 >>
+\* distance classes: two ordinary forward set-ups, a back-scattering detector (distance < 0: every pixel of the untilted
+\* detector has two-theta > 90 degrees) and a near-field detector (distance 2, smaller than the pixel offsets and than the
+\* grain translations: tilted it reaches behind the sample, and a translated grain sits beyond it) - in the last two
+\* classes the lab vectors with d_x < 0 (two-theta > 90 degrees) are the rule, not the exception
+DistList == << 60, 70, -60, 2 >>
 WLList   == << <<1,4>>, <<3,10>>, <<7,8>> >>                   \* wavelength num/den
 TList    == << <<3,-4,5>>, <<-2,6,-1>>, <<3,6,-1>>, <<-2,-4,5>> >>
 Py       == << << <<4,3,5>>, <<3,-4,5>> >>, << <<12,5,13>>, <<5,-12,13>> >>, << <<24,7,25>>, <<-7,24,25>> >> >>
@@ -244,7 +266,7 @@ FwdCfg(S, f, g, sz, pk, om) ==
      sw |-> [i \in 1..8 |-> SwBit(S, i)], flip |-> f, om |-> om, pk |-> pk,
      o |-> FlipList[f], sgn |-> g, zs |-> sz[1], ys |-> sz[2], zc |-> ZC, yc |-> YC,
      sc |-> PeakList[pk][1], fc |-> PeakList[pk][2],
-     dist |-> DistList[((s \div 7) % 2) + 1], wl |-> WLList[((s \div 4) % 3) + 1],
+     dist |-> DistList[((s \div 7) % 4) + 1], wl |-> WLList[((s \div 4) % 3) + 1],
      tilt_x |-> AngleOf(S, s, "tilt_x"), tilt_y |-> AngleOf(S, s, "tilt_y"), tilt_z |-> AngleOf(S, s, "tilt_z"),
      wedge |-> AngleOf(S, s, "wedge"), chi |-> AngleOf(S, s, "chi"),
      omega |-> OmegaOf(s, om),
@@ -515,6 +537,13 @@ Roundtrip ==
 EwaldBound == (stage = "uncomputed" /\ out.valid) =>
                  Norm2(out.gam[1]) <= 4 * out.gam[2] * out.gam[2]
 
+\* Bragg: |lambda g|^2 = 4 m^2 sin^2(theta),  sin^2(theta) = (|d| - d_x)/(2 |d|)   (no product is formed: MulEq)
+SinSq(qi) == << QuadList[qi][2] - QuadList[qi][1][1], 2 * QuadList[qi][2] >>
+BraggLaw == (stage = "uncomputed" /\ cfg.mode = "inv") =>
+   LET ss == SinSq(cfg.q)
+   IN /\ 0 <= ss[1] /\ ss[1] <= ss[2]
+      /\ MulEq(Norm2(out.gam[1]), ss[2], 4 * cfg.m * cfg.m * ss[1], out.gam[2] * out.gam[2])
+
 AxisLaw == (stage = "axrotated") =>
    LET ax == AxisList[lat[1]]
        R  == out.R
@@ -550,7 +579,7 @@ Emit ==
                                 g |-> out.g, wc1 |-> << WC(cfg)[1][1], WC(cfg)[2] >> ]))
    /\ stage = "uncomputed" =>
         PrintT("@@" \o ToJson([ mode |-> cfg.mode, par |-> ParJson, q |-> cfg.q, m |-> cfg.m, scale |-> cfg.scale,
-                                d |-> d, nq |-> QuadList[cfg.q][2], gam |-> out.gam,
+                                d |-> d, nq |-> QuadList[cfg.q][2], ssq |-> SinSq(cfg.q), gam |-> out.gam,
                                 an |-> out.an, bn |-> out.bn, cn |-> out.cn, np |-> WC(cfg)[2],
                                 valid |-> B2I(out.valid), tangent |-> B2I(out.tangent),
                                 degenerate |-> B2I(out.degenerate), nonzero |-> B2I(out.nonzero) ]))
